@@ -198,6 +198,15 @@ def constructed(rng):
                         add("mulr", G.fD(sg_ * (x_ // y_), a_), G.fD(y_, b_), n_)
                         add("mulr", G.fD(y_, b_), G.fD(-sg_ * (x_ // y_), a_), n_)
                         break
+    #     both factors next to the integer square root of a primitive-type maximum
+    import math
+    for T in G.TYPE_MAXIMA:
+        r_ = math.isqrt(T)
+        for d1 in (0, 1, -1, 2, rng.randrange(-10 ** 11, 10 ** 11), rng.randrange(-10 ** 11, 10 ** 11), rng.randrange(-10 ** 5, 10 ** 5)):
+            d2 = rng.choice((0, 1, -1, d1, rng.randrange(-10 ** 11, 10 ** 11)))
+            a_, b_ = r_ + d1, r_ + d2
+            if 0 < a_ <= M and 0 < b_ <= M:
+                add("mulr", G.fD(a_ * rng.choice((1, -1)), rng.randrange(0, 19)), G.fD(b_ * rng.choice((1, -1)), rng.randrange(0, 19)), rng.randrange(0, 19))
     #     products just below a primitive-type maximum whose cut-off digits are all nines / zero / one / half
     for x_, a_, y_, b_, n_ in C.products_near_type_maxima(rng):
         add("mulr", G.fD(x_ * rng.choice((1, -1)), a_), G.fD(y_ * rng.choice((1, -1)), b_), n_)
